@@ -33,18 +33,27 @@ type EntryImpl struct {
 
 // newEntry constructor for Entries
 func newEntry(ctx context.Context, parent Entry, pathElemName string, tc *TreeContext) (*EntryImpl, error) {
+	newEntry, err := newDetachedEntry(ctx, parent, pathElemName, tc)
+	if err != nil {
+		return nil, err
+	}
+	// add the Entry as a child to the parent Entry
+	err = parent.addChild(ctx, newEntry)
+	return newEntry, err
+}
+
+// newDetachedEntry creates an Entry that knows its parent but is not (yet) one of the childs of the
+// parent, so nobody navigating the tree can find it before it is added there.
+func newDetachedEntry(ctx context.Context, parent Entry, pathElemName string, tc *TreeContext) (*EntryImpl, error) {
 	// create a new sharedEntryAttributes instance
 	sea, err := newSharedEntryAttributes(ctx, parent, pathElemName, tc)
 	if err != nil {
 		return nil, err
 	}
 
-	newEntry := &EntryImpl{
+	return &EntryImpl{
 		sharedEntryAttributes: sea,
-	}
-	// add the Entry as a child to the parent Entry
-	err = parent.addChild(ctx, newEntry)
-	return newEntry, err
+	}, nil
 }
 
 // Entry is the primary Element of the Tree.
